@@ -36,6 +36,10 @@ func runC07(c *Ctx) {
 	// (6) locks
 	checkGuards(r, p, "lock/guarded-by", []GuardRow{{Pkg: pkg, Type: "Sequence", Mutex: "Mutex", Fields: []string{"next", "reserved"}}})
 	checkLockBalance(r, p, "lock/balance", []string{pkg}, nil, func(k string) bool { return hasPrefixAny(k, "kvstore.Sequence.") })
+	// Next and Release are one atomic step each: the read of next/reserved, the store write and the
+	// lease update happen in one critical section (a snapshot written back after the unlock rolls
+	// the durable mark behind numbers handed out meanwhile)
+	checkAtomicOperations(r, p, "atomic/one-section-per-operation", pkg, "Sequence", "Mutex")
 	// (7) errors
 	checkErrChecked(r, p, "err/checked", errScope{Pkg: pkg, Funcs: methods})
 	for _, fd := range methods {
